@@ -142,6 +142,13 @@ impl Prop for C12 {
                     timeout: Duration::from_secs(60),
                     what: "a registered operator that shares a precedence level with built-in operators of the other associativity (fresh process each): every fully parenthesised tree of <= 3 nodes over it and the built-ins of that level must round-trip (no grouping rule is assumed: the round trip is engine against engine)".into(),
                 },
+                Stage {
+                    name: "dual-role".into(),
+                    len: 1,
+                    chunk: 1,
+                    timeout: Duration::from_secs(900),
+                    what: "fresh process with `%` also postfix, `*` also prefix, `!` and `++` also infix: every sequence of <= 5 (6) tokens over {1, x, %, *, !, ++, (, ), +, -, [, ], NOT, not}, spaced and glued, that the engine accepts must round-trip (engine against engine)".into(),
+                },
             ],
             rule: "stage 'reregister': every history of <= 3 registrations of one infix operator with (precedence, associativity) drawn from {105,125}x{LEFT,RIGHT}, each history in a fresh process, the 18 two-operator trees over {xop,*,+} round-tripped after every registration (a renderer that remembers binding powers across a re-registration fails here). \
                    for every AST t the parser returns on the inputs: parse(t.expr()) == t and expr() of the re-parsed tree is the same string; non-trivial = >= 1 operator node, distinct = distinct AST; \
@@ -208,6 +215,55 @@ impl Prop for C12 {
             }
             return;
         }
+        if stage == 6 {
+            out.at(0);
+            let dops = super::c02::install_dual_role();
+            let seqs = TokenSeqs { alphabet: super::c02::DUAL_TOKENS.to_vec(), max_len: tier.pick(5, 6) };
+            // (glued, `1not!1` reads `not` as a NAME: trees with a name that is an operator word
+            // are outside the property)
+            fn opword_name(t: &Ast, ops: &OpSet) -> bool {
+                let is = |n: &str| n == "not" || ops.infix.contains_key(n) || ops.prefix.contains(n) || ops.postfix.contains(n);
+                match t {
+                    Ast::Ref(n) => is(n),
+                    Ast::Func(n, v) => is(n) || v.iter().any(|x| opword_name(x, ops)),
+                    Ast::Unary(_, x) | Ast::Postfix(x, _) => opword_name(x, ops),
+                    Ast::Binary(_, l, r) => opword_name(l, ops) || opword_name(r, ops),
+                    Ast::Ternary(a, b, c) => opword_name(a, ops) || opword_name(b, ops) || opword_name(c, ops),
+                    Ast::List(v) | Ast::Stmt(v) => v.iter().any(|x| opword_name(x, ops)),
+                    Ast::Map(v) => v.iter().any(|(k, x)| opword_name(k, ops) || opword_name(x, ops)),
+                    _ => false,
+                }
+            }
+            for i in 0..seqs.len() {
+                for text in [seqs.spaced(i), seqs.glued(i)] {
+                    if let Res::Ok(t) = engine::parse(&text) {
+                        if opword_name(&t, &dops) {
+                            out.count("skipped_name_is_an_operator_word", 1);
+                            continue;
+                        }
+                    }
+                    // one recorded defect class (known_findings.txt): `a not S b` where S is a postfix
+                    // operator AND an infix operator is the only spelling that reaches the infix S;
+                    // its rendering `not (a S b)` reads S as postfix again. Keyed by the symbol, so
+                    // that anything else that fails under this table keeps its own key.
+                    let mut tmp = WorkerOut::default();
+                    roundtrip(&text, &dops, "dual-role", &mut tmp);
+                    let fails = std::mem::take(&mut tmp.fails);
+                    out.merge(tmp);
+                    for (k, (f, _)) in fails {
+                        let squeezed: String = text.chars().filter(|c| *c != ' ').collect();
+                        let sym = ["%", "++"].into_iter().find(|s| squeezed.contains(&format!("not{}", s)));
+                        match sym {
+                            Some(sym) if k.starts_with("roundtrip:") => out.fail(format!("roundtrip:dual-role:not-before-a-symbol-that-is-also-postfix:{}", sym), f.case.clone(), f.detail.clone()),
+                            _ => out.fail(k, f.case.clone(), f.detail.clone()),
+                        }
+                    }
+                }
+            }
+            out.count("states", seqs.len());
+            out.count("transitions", 2 * seqs.len());
+            return;
+        }
         if stage == 2 {
             let hs = rereg_histories();
             for i in a..b {
@@ -240,6 +296,9 @@ impl Prop for C12 {
         }
         if stage == 4 {
             return super::c13::render_workloads()[i as usize].name.to_string();
+        }
+        if stage == 6 {
+            return "dual-role operator table".to_string();
         }
         if stage == 5 {
             return format!("{:?}", MIXED[i as usize]);
